@@ -547,7 +547,12 @@ class _Eval:
         return ("dict", tuple((self.expr(k) if k is not None else None, self.expr(v)) for k, v in zip(e.keys, e.values)))
 
     def e_BinOp(self, e):
-        return ("bin", BINOPS[type(e.op)], self.expr(e.left), self.expr(e.right))
+        l, r = self.expr(e.left), self.expr(e.right)
+        if isinstance(e.op, ast.Add):
+            j = _string_concat(l, r)
+            if j is not None:
+                return j
+        return ("bin", BINOPS[type(e.op)], l, r)
 
     def e_UnaryOp(self, e):
         if isinstance(e.op, ast.USub) and isinstance(e.operand, ast.Constant) and isinstance(e.operand.value, (int, float)):
@@ -819,6 +824,35 @@ def _assigned_self_attrs(stmts):
 
 # ---------------------------------------------------------------------------------------------
 # term utilities
+
+def _stringy_parts(t):
+    """parts of a term that is known to be a string built from pieces: a str constant, an f-string template, str(x)"""
+    if t[0] == "const" and isinstance(t[1], str):
+        return [t]
+    if t[0] == "fstr":
+        return list(t[1])
+    if t[0] == "call" and t[1] == ("global", "str") and len(t[2]) == 1 and not t[3]:
+        return [t[2][0]]
+    return None
+
+
+def _string_concat(l, r):
+    """"a" + str(b) + "c" is the same value as f"a{b}c": string concatenations are given the canonical template form, so that a column
+    name reads the same however it is spelled. Only when one side is KNOWN to be a string (constant, template, str(..))."""
+    lp, rp = _stringy_parts(l), _stringy_parts(r)
+    if lp is None and rp is None:
+        return None
+    parts = (lp if lp is not None else [l]) + (rp if rp is not None else [r])
+    out = []
+    for p in parts:
+        if out and p[0] == "const" and out[-1][0] == "const" and isinstance(p[1], str) and isinstance(out[-1][1], str):
+            out[-1] = ("const", out[-1][1] + p[1])
+        else:
+            out.append(p)
+    if len(out) == 1 and out[0][0] == "const":
+        return out[0]
+    return ("fstr", tuple(out))
+
 
 def children(t):
     """Direct sub-terms of a term."""
